@@ -10,3 +10,47 @@ UNITS = [
     (M, "run_components"),
 ]
 NOT_CARRIED = ["thread-pool dispatch of sub-graphs (run_all with a pool): no thread semantics in the encoding"]
+
+# ---- C04-L1 (contracts only): the local outcome rule has a unique solution on a DAG - inductive step -------------
+# out_*(c, inst): what process() does for component c given the broker's instances (a function: bodies are assumed
+# deterministic; the per-override contracts are functional in body_value / ds_value / p_value).  LOC(c, inst, miss): the entry
+# of c is what the local rule prescribes.  Step: two brokers that satisfy LOC at c and agree on everything c reads agree at c.
+import collections
+from contracts.dr import Comp, Val, MISSING
+from pyvc.dsl import Map, Opt, Set, BOOL, EXC
+
+_INST = Map(Comp, Opt(Val))
+_MISS = Map(Comp, MISSING)
+
+
+def _loc(i, m):
+    same0 = "((c in {m}) == (c in m0) and implies(c in m0, {m}[c] == m0[c]))"
+    return ("(implies(c in seeds, c in {i} and {i}[c] == seeds[c] and " + same0 + ") and "
+            " implies(c not in seeds and not uf('runnable', BOOL, c), c not in {i} and " + same0 + ") and "
+            " implies(c not in seeds and uf('runnable', BOOL, c) and not uf('out_raises', BOOL, c, {i}), "
+            "         c in {i} and {i}[c] == uf('out_value', Opt(Val), c, {i}) and " + same0 + ") and "
+            " implies(c not in seeds and uf('runnable', BOOL, c) and uf('out_raises', BOOL, c, {i}), c not in {i} and "
+            "         implies(isinstance_exc(uf('out_exc', EXC, c, {i}), MissingRequirements), c in {m} and {m}[c] == uf('out_exc', EXC, c, {i}).requirements) and "
+            "         implies(not isinstance_exc(uf('out_exc', EXC, c, {i}), MissingRequirements), " + same0 + ")))").format(i=i, m=m)
+
+
+LEMMAS = [dict(
+    name="C04-L1-step",
+    module=M,
+    decls=collections.OrderedDict(c=Comp, seeds=_INST, i1=_INST, i2=_INST, m1=_MISS, m2=_MISS, m0=_MISS, reads=Set(Comp)),
+    hyps=[
+        _loc("i1", "m1"), _loc("i2", "m2"),
+        # induction hypothesis: the two brokers agree on everything c reads (its dependencies and ignored contexts:
+        # all seeds or of lower level)
+        "forall(d, reads, (d in i1) == (d in i2) and implies(d in i1, i1[d] == i2[d]))",
+        # locality of the outcome function (instance for i1, i2): it reads the broker only at `reads`
+        "implies(forall(d, reads, (d in i1) == (d in i2) and implies(d in i1, i1[d] == i2[d])), "
+        "        uf('out_raises', BOOL, c, i1) == uf('out_raises', BOOL, c, i2) and "
+        "        uf('out_value', Opt(Val), c, i1) == uf('out_value', Opt(Val), c, i2) and "
+        "        uf('out_exc', EXC, c, i1) == uf('out_exc', EXC, c, i2))",
+    ],
+    goals=["(c in i1) == (c in i2)", "implies(c in i1, i1[c] == i2[c])",
+           "(c in m1) == (c in m2)", "implies(c in m1, m1[c] == m2[c])"])]
+NOT_CARRIED += ["that run_components establishes the local rule LOC for every processed component is not an obligation yet: "
+                "the lemma C04-L1-step is the inductive step over the level function only (induction on levels is the meta-step)",
+                "determinism and locality of process() are hypotheses of the lemma (bodies are assumed deterministic)"]
